@@ -701,7 +701,12 @@ def r_local(E):
                                         f"index with the pattern's country time zone before comparing it with the "
                                         f"simulation date", rel, fn.lineno, q))
     rel, fn = pm.find_function("abstract_modeling_classes/explainable_objects.py", "ExplainableHourlyQuantities.convert_to_utc")
-    calls = {c.func.attr: c for c in _calls(fn) if isinstance(c.func, ast.Attribute)}
+    # (the steps may sit in helpers of the class — `self._localize(self.value, tz.value)`, `self._merge(df, mask)`: they
+    # are read where they are called, in the caller's terms)
+    from ..astutil import nodes_through_helpers as _nthl
+    _hfinder = pm.helper_finder("ExplainableHourlyQuantities")
+    _all_calls = [n for n in _nthl(fn, _hfinder, depth=2) if isinstance(n, ast.Call)]
+    calls = {c.func.attr: c for c in _all_calls if isinstance(c.func, ast.Attribute)}
     checks = []
     loc = calls.get("tz_localize")
     tzparam = fn.args.args[1].arg if len(fn.args.args) > 1 else "local_timezone"
@@ -716,7 +721,7 @@ def r_local(E):
                                            and k.value.value == "shift_forward" for k in loc.keywords)))
     gb = calls.get("groupby")
     summed = any(isinstance(c.func, ast.Attribute) and c.func.attr == "sum" and isinstance(c.func.value, ast.Call)
-                 and isinstance(c.func.value.func, ast.Attribute) and c.func.value.func.attr == "groupby" for c in _calls(fn))
+                 and isinstance(c.func.value.func, ast.Attribute) and c.func.value.func.attr == "groupby" for c in _all_calls)
     checks.append(("hours duplicated by daylight saving summed, not dropped", gb is not None and summed))
     dup = calls.get("duplicated")
     checks.append(("every duplicated hour taken into the merge (keep=False)",
@@ -731,10 +736,12 @@ def r_local(E):
     converted = set()
 
     def is_converted(e):
-        for c in ast.walk(e):
+        for c in _nthl(e, _hfinder, depth=2):
             if isinstance(c, ast.Call) and isinstance(c.func, ast.Attribute) and c.func.attr == "tz_convert":
-                inner = c.func.value
-                from ..astutil import enorm as _enorm
+                from ..astutil import enorm as _enorm, view_root as _vroot, fully_expanded as _fxx
+                # (inside a helper the receiver of tz_convert may be a local of the helper: read its definition)
+                hv = _vroot(c)[0]
+                inner = _fxx(c.func.value, hv if hv is not None else fn)
                 if any(isinstance(x, ast.Call) and isinstance(x.func, ast.Attribute) and x.func.attr == "tz_localize"
                        and _enorm(x.func.value, fn) == "self.value" for x in ast.walk(inner)):
                     return True
@@ -1121,9 +1128,9 @@ def r_idflow(E):
                     gp = getattr(par, "_parent", None)
                     if isinstance(gp, ast.keyword) and gp.arg == "key":
                         bad = f"sort key `{norm(par)[:60]}`"
-                if isinstance(par, ast.Subscript) and par.slice is x and isinstance(par.value, (ast.Name, ast.Attribute)) \
-                        and isinstance(n, ast.Call) and n.func.id in ("id", "hash"):
-                    bad = f"index computed from a hash `{norm(par)[:60]}`"
+                # (`table[id(obj)]` / `table[hash(obj)]` with the bare identifier as subscript can only be a dictionary
+                # look-up — a sequence would be out of range —, which is one of the allowed uses; an index *computed* from
+                # it (`% n`) is arithmetic and reported above)
                 if isinstance(par, (ast.JoinedStr, ast.FormattedValue)):
                     break
                 x, par = par, getattr(par, "_parent", None)
@@ -1182,6 +1189,17 @@ def _flow(fn):
                     src = names(s.value) | ctl
                     tg = s.targets if isinstance(s, ast.Assign) else [s.target]
                     for t in tg:
+                        if isinstance(t, (ast.Subscript, ast.Attribute)):
+                            # x[i] = v: x derives from v and from what selected the position (a mask, an index)
+                            b = t
+                            sel = set()
+                            while isinstance(b, (ast.Subscript, ast.Attribute)):
+                                if isinstance(b, ast.Subscript):
+                                    sel |= names(b.slice)
+                                b = b.value
+                            if isinstance(b, ast.Name):
+                                dep[b.id] = dep.get(b.id, set()) | src | sel
+                            continue
                         for x in ast.walk(t):
                             if isinstance(x, ast.Name):
                                 dep[x.id] = dep.get(x.id, set()) | src
@@ -1203,6 +1221,15 @@ def _flow(fn):
                     walk(s.body, c2)
         walk(fn.body, set())
     return dep, params, names
+
+
+def _derives_from(expr, param, fn):
+    """the argument is computed from the caller's parameter of that name and from no other parameter (a normalised copy:
+    `sorted(set(hours))`, a local bound to it)"""
+    from ..astutil import fully_expanded
+    ps = {a.arg for a in fn.args.args}
+    used = {x.id for x in ast.walk(fully_expanded(expr, fn)) if isinstance(x, ast.Name)} & ps
+    return used == {param}
 
 
 def _filters_of(expr, names):
@@ -1397,11 +1424,17 @@ def r_spread(E):
         """parameters of fn that end up on the right of an `in` test, here or in a builder they are handed to"""
         ps = [a.arg for a in fn.args.args]
         out = set()
+        from ..astutil import fully_expanded as _fxm
         for n in ast.walk(fn):
+            sets_ = []
             if isinstance(n, ast.Compare) and any(isinstance(o, (ast.In, ast.NotIn)) for o in n.ops):
-                for c in n.comparators:
-                    if isinstance(c, ast.Name) and c.id in ps:
-                        out.add(c.id)
+                sets_ = list(n.comparators)
+            elif isinstance(n, ast.Call) and norm(n.func) in ("np.isin", "numpy.isin", "np.in1d") and len(n.args) >= 2:
+                sets_ = [n.args[1]]          # the vectorised membership test
+            for c in sets_:
+                for x in ast.walk(_fxm(c, fn)):
+                    if isinstance(x, ast.Name) and x.id in ps:
+                        out.add(x.id)
             if isinstance(n, ast.Call) and isinstance(n.func, ast.Name) and n.func.id in fns and n.func.id not in seen \
                     and n.func.id != fn.name:
                 callee = fns[n.func.id]
@@ -1410,8 +1443,10 @@ def r_spread(E):
                 given = {cps[i]: a for i, a in enumerate(n.args) if i < len(cps)}
                 given.update({k.arg: k.value for k in n.keywords if k.arg})
                 for cp, a in given.items():
-                    if cp in inner and isinstance(a, ast.Name) and a.id in ps:
-                        out.add(a.id)
+                    if cp in inner:
+                        for x in ast.walk(_fxm(a, fn)):
+                            if isinstance(x, ast.Name) and x.id in ps:
+                                out.add(x.id)
         return out
 
     for name, fn in sorted(fns.items()):
@@ -1423,9 +1458,23 @@ def r_spread(E):
             if not (isinstance(r, ast.Call) and isinstance(r.func, ast.Name) and r.func.id == "len" and r.args):
                 continue
             a = r.args[0]
+            from ..astutil import fully_expanded as _fxs
+            if isinstance(a, ast.Name) and a.id not in mp:
+                # a local: what it stands for (through the small helpers of the module: `sorted_distinct_values(hours)`)
+                ex = _fxs(a, fn)
+                for _ in range(2):
+                    for c_ in [x for x in ast.walk(ex) if isinstance(x, ast.Call) and isinstance(x.func, ast.Name) and x.func.id in fns]:
+                        h_ = fns[c_.func.id]
+                        b_ = [b for b in h_.body if not (isinstance(b, ast.Expr) and isinstance(b.value, ast.Constant))]
+                        if len(b_) == 1 and isinstance(b_[0], ast.Return) and b_[0].value is not None and len(h_.args.args) == len(c_.args):
+                            from ..astutil import substitute as _subs
+                            rep = _subs(b_[0].value, {p_.arg: v_ for p_, v_ in zip(h_.args.args, c_.args)})
+                            ex = _subs(ex, {}) if False else ast.parse(norm(ex).replace(norm(c_), norm(rep)), mode="eval").body
+                if any(isinstance(x, ast.Name) and x.id in mp for x in ast.walk(ex)):
+                    a = ex
             if not (isinstance(a, ast.Name) and a.id in mp):
-                if isinstance(a, ast.Call) and norm(a.func) in ("set", "frozenset", "dict.fromkeys") and a.args \
-                        and isinstance(a.args[0], ast.Name) and a.args[0].id in mp:
+                if any(isinstance(c_, ast.Call) and norm(c_.func) in ("set", "frozenset", "dict.fromkeys") and c_.args
+                       and isinstance(c_.args[0], ast.Name) and c_.args[0].id in mp for c_ in ast.walk(a)):
                     res.instances += 1
                     if len(res.samples) < 3:
                         res.samples.append({"function": name, "divisor": norm(r), "verdict": "counts distinct members"})
@@ -1479,7 +1528,7 @@ def r_thread(E):
                 for i, a in enumerate(c.args):
                     if i < len(cps) and cps[i] in params:
                         res.instances += 1
-                        if norm(a).split("__")[0] != cps[i]:      # (a local of an inlined helper is `<name>__<helper>`)
+                        if norm(a).split("__")[0] != cps[i] and not _derives_from(a, cps[i], raw_fn):      # (a local of an inlined helper is `<name>__<helper>`)
                             res.findings.append(Finding(
                                 "R-THREAD", f"{name} -> {c.func.id}({cps[i]}={norm(a)[:20]})",
                                 f"{name} passes `{norm(a)[:30]}` as {c.func.id}'s `{cps[i]}` although it has a parameter of "
@@ -1487,7 +1536,7 @@ def r_thread(E):
                 for k in c.keywords:
                     if k.arg in params:
                         res.instances += 1
-                        if norm(k.value).split("__")[0] != k.arg:
+                        if norm(k.value).split("__")[0] != k.arg and not _derives_from(k.value, k.arg, raw_fn):
                             res.findings.append(Finding(
                                 "R-THREAD", f"{name} -> {c.func.id}({k.arg}={norm(k.value)[:20]})",
                                 f"{name} passes `{norm(k.value)[:30]}` as {c.func.id}'s `{k.arg}`", rel, c.lineno, name))
